@@ -7,6 +7,7 @@ CONSTANTS
   ArgVals <- QuickArgs
   StepVals = {1, 2, 3}
   Fuel = 14
+  OneQ = FALSE
   MaxAbs = 10
 INVARIANTS TileSound WidthIgnoringStepLoses
 CHECK_DEADLOCK FALSE
